@@ -23,7 +23,7 @@ func c07Local(entry string, n []uint64, f []string) string {
 		out = append(make([]byte, 0, len(out)), out...)
 		m, err := dhcp4.ParseMessage(out)
 		if err != nil {
-			return "err 1"
+			return "err"
 		}
 		o := m.Options
 		toks := []string{c07TB(out), c07U(uint64(m.Op)), c07U(uint64(m.HType)), c07U(uint64(m.HLen)), c07U(uint64(m.Hops)),
